@@ -86,7 +86,7 @@ def classify_body(body, collecting):
     return "mixed"
 
 
-def guard_info(g):
+def guard_info(g, c=None):
     if g is None:
         return None
     probes = self_calls(g, ("subtype_", "subtype_probe"))
@@ -95,7 +95,12 @@ def guard_info(g):
     for n in walk(g):
         if n.get("k") == "un" and n.get("op") == "Not":
             inner = n["a"]
-            for m in nodes(inner, "match"):
+            ms = list(nodes(inner, "match"))
+            if c is not None:
+                from shared import helper_bodies
+                for hb in helper_bodies(c, inner):
+                    ms.extend(nodes(hb, "match"))
+            for m in ms:
                 for a in m["arms"]:
                     for alt in pat_alternatives(a["pat"]):
                         # look through Ok(..)
@@ -127,7 +132,7 @@ class Table:
         self.rows = []
         for r in arm_rows(self.main):
             self.rows.append({"heads": [(ctor(h[0]), ctor(h[1])) for h in r["heads"] if len(h) == 2],
-                              "guard": guard_info(r["guard"]), "class": classify_body(r["body"], self.collecting),
+                              "guard": guard_info(r["guard"], c), "class": classify_body(r["body"], self.collecting),
                               "body": r["body"], "pat": r["pat"], "ln": r["ln"]})
 
     def decide(self, c1, c2):
